@@ -1,10 +1,356 @@
-//! C01 — not built yet.
-use crate::{sx::Sx, Emitter};
+//! C01 — canonical JSON.  case = ( text-bytes ).  outcome = ok( value canonical-bytes ) | err(0)
+//! | ( N3 code ) when ruma's own observation points disagree with each other.
+use ruma_common::{canonical_json::to_canonical_value, CanonicalJsonObject, CanonicalJsonValue};
 
-pub fn run(_tier: &str, _seed: u64, _em: &mut Emitter) {}
+use crate::{
+    rng::Rng,
+    sx::{guarded, json_to_sx, Sx},
+    Emitter,
+};
 
-pub fn replay(_case: &Sx) -> Option<Sx> {
-    None
+/// A JSON value as the generator sees it, before rendering to text.
+#[derive(Clone, Debug)]
+enum G {
+    Null,
+    Bool(bool),
+    Num(String),
+    Str(String),
+    Arr(Vec<G>),
+    Obj(Vec<(String, G)>),
+}
+
+const CHARS: &[char] = &[
+    'a', 'b', 'z', 'A', '0', ' ', '"', '\\', '/', '\u{8}', '\u{c}', '\n', '\r', '\t', '\u{0}', '\u{1}', '\u{1f}', '\u{7f}',
+    '\u{80}', '\u{e9}', '\u{7ff}', '\u{800}', '\u{2028}', '\u{d7ff}', '\u{e000}', '\u{fffd}', '\u{ffff}', '\u{10000}',
+    '\u{1F600}', '\u{10ffff}', '\u{65e5}', '\u{672c}',
+];
+
+const NUMS: &[&str] = &[
+    "0", "1", "-1", "10", "123", "9007199254740990", "9007199254740991", "9007199254740992", "-9007199254740991",
+    "-9007199254740992", "9223372036854775807", "9223372036854775808", "-9223372036854775808", "-9223372036854775809",
+    "18446744073709551615", "18446744073709551616", "-0", "0.0", "1.0", "1e2", "1E2", "1e+2", "1e-2", "1.5", "-1.5",
+    "1E400", "123456789012345678901234567890", "0e0", "-0.0", "-0e1", "2e0",
+];
+
+fn gen_str(r: &mut Rng) -> String {
+    let n = match r.below(8) {
+        0 => 0,
+        1..=5 => 1 + r.below(3),
+        _ => 4 + r.below(6),
+    };
+    (0..n).map(|_| *r.pick(CHARS)).collect()
+}
+
+fn gen_g(r: &mut Rng, depth: usize) -> G {
+    let k = if depth == 0 { r.below(5) } else { r.below(8) };
+    match k {
+        0 => G::Null,
+        1 => G::Bool(r.chance(1, 2)),
+        2 | 3 => {
+            if r.chance(3, 4) {
+                G::Num((*r.pick(NUMS)).to_owned())
+            } else {
+                G::Num(((r.next() % 4000) as i64 - 2000).to_string())
+            }
+        }
+        4 => G::Str(gen_str(r)),
+        5 => G::Arr((0..r.below(4)).map(|_| gen_g(r, depth - 1)).collect()),
+        _ => {
+            let n = r.below(5);
+            let mut m: Vec<(String, G)> = (0..n).map(|_| (gen_str(r), gen_g(r, depth - 1))).collect();
+            // sometimes an explicit duplicate key
+            if n > 0 && r.chance(1, 6) {
+                let k = m[r.below(n)].0.clone();
+                m.push((k, gen_g(r, depth - 1)));
+            }
+            G::Obj(m)
+        }
+    }
+}
+
+fn ws(r: &mut Rng, level: u32, out: &mut String) {
+    if level == 0 {
+        return;
+    }
+    for _ in 0..r.below(3) {
+        out.push(*r.pick(&[' ', '\n', '\t', '\r']));
+    }
+}
+
+/// Render a string with a randomly chosen spelling for every character.
+fn render_str(r: &mut Rng, s: &str, esc: u32, out: &mut String) {
+    out.push('"');
+    for c in s.chars() {
+        let cp = c as u32;
+        let must = cp < 0x20 || c == '"' || c == '\\';
+        let choice = if must { 1 + r.below(2) } else if esc == 0 { 0 } else { r.below(4) };
+        match choice {
+            0 => out.push(c),
+            1 => match c {
+                '"' => out.push_str("\\\""),
+                '\\' => out.push_str("\\\\"),
+                '/' => out.push_str("\\/"),
+                '\u{8}' => out.push_str("\\b"),
+                '\u{c}' => out.push_str("\\f"),
+                '\n' => out.push_str("\\n"),
+                '\r' => out.push_str("\\r"),
+                '\t' => out.push_str("\\t"),
+                _ => {
+                    if must {
+                        push_u(r, cp, out)
+                    } else {
+                        out.push(c)
+                    }
+                }
+            },
+            _ => push_u(r, cp, out),
+        }
+    }
+    out.push('"');
+}
+
+fn push_u(r: &mut Rng, cp: u32, out: &mut String) {
+    let upper = r.chance(1, 2);
+    let mut one = |u: u32, out: &mut String| {
+        if upper {
+            out.push_str(&format!("\\u{u:04X}"));
+        } else {
+            out.push_str(&format!("\\u{u:04x}"));
+        }
+    };
+    if cp >= 0x10000 {
+        let v = cp - 0x10000;
+        one(0xD800 + (v >> 10), out);
+        one(0xDC00 + (v & 0x3ff), out);
+    } else {
+        one(cp, out);
+    }
+}
+
+fn render(r: &mut Rng, g: &G, wsl: u32, esc: u32, shuffle: bool, out: &mut String) {
+    match g {
+        G::Null => out.push_str("null"),
+        G::Bool(b) => out.push_str(if *b { "true" } else { "false" }),
+        G::Num(n) => out.push_str(n),
+        G::Str(s) => render_str(r, s, esc, out),
+        G::Arr(a) => {
+            out.push('[');
+            ws(r, wsl, out);
+            for (i, x) in a.iter().enumerate() {
+                if i > 0 {
+                    out.push(',');
+                    ws(r, wsl, out);
+                }
+                render(r, x, wsl, esc, shuffle, out);
+                ws(r, wsl, out);
+            }
+            out.push(']');
+        }
+        G::Obj(m) => {
+            let mut idx: Vec<usize> = (0..m.len()).collect();
+            if shuffle {
+                // permute, but keep the relative order of equal keys (last duplicate wins)
+                for i in (1..idx.len()).rev() {
+                    let j = r.below(i + 1);
+                    idx.swap(i, j);
+                }
+                let mut fixed = idx.clone();
+                for (pos, &i) in idx.iter().enumerate() {
+                    let _ = (pos, i);
+                }
+                // stable re-sort of positions holding equal keys
+                for a in 0..fixed.len() {
+                    for b in a + 1..fixed.len() {
+                        if m[fixed[a]].0 == m[fixed[b]].0 && fixed[a] > fixed[b] {
+                            fixed.swap(a, b);
+                        }
+                    }
+                }
+                idx = fixed;
+            }
+            out.push('{');
+            ws(r, wsl, out);
+            for (n, &i) in idx.iter().enumerate() {
+                if n > 0 {
+                    out.push(',');
+                    ws(r, wsl, out);
+                }
+                render_str(r, &m[i].0, esc, out);
+                ws(r, wsl, out);
+                out.push(':');
+                ws(r, wsl, out);
+                render(r, &m[i].1, wsl, esc, shuffle, out);
+                ws(r, wsl, out);
+            }
+            out.push('}');
+        }
+    }
+}
+
+/// All of ruma's observation points on one text; they must agree with each other.
+pub fn observe(text: &str) -> Sx {
+    let text = text.to_owned();
+    guarded(move || {
+        let parsed: Result<CanonicalJsonValue, _> = serde_json::from_str(&text);
+        // second route: serde_json::Value -> to_canonical_value
+        let via_value = serde_json::from_str::<serde_json::Value>(&text).ok().map(to_canonical_value);
+        match parsed {
+            Err(_) => {
+                if let Some(Ok(_)) = via_value {
+                    return Sx::L(vec![Sx::N(3), Sx::N(1)]);
+                }
+                Sx::err(0)
+            }
+            Ok(v) => {
+                match via_value {
+                    Some(Ok(v2)) if v2 == v => {}
+                    _ => return Sx::L(vec![Sx::N(3), Sx::N(2)]),
+                }
+                let s1 = serde_json::to_string(&v).unwrap();
+                let s2 = v.to_string();
+                if s1 != s2 {
+                    return Sx::L(vec![Sx::N(3), Sx::N(3)]);
+                }
+                if let CanonicalJsonValue::Object(o) = &v {
+                    let mut stripped: CanonicalJsonObject = o.clone();
+                    stripped.remove("signatures");
+                    stripped.remove("unsigned");
+                    let want = serde_json::to_string(&CanonicalJsonValue::Object(stripped)).unwrap();
+                    match ruma_signatures::canonical_json(o) {
+                        Ok(s3) if s3 == want => {}
+                        _ => return Sx::L(vec![Sx::N(3), Sx::N(4)]),
+                    }
+                }
+                // parsing the canonical string back gives an equal value
+                match serde_json::from_str::<CanonicalJsonValue>(&s1) {
+                    Ok(back) if back == v => {}
+                    _ => return Sx::L(vec![Sx::N(3), Sx::N(5)]),
+                }
+                Sx::ok(Sx::L(vec![json_to_sx(&v), Sx::s(&s1)]))
+            }
+        }
+    })
+}
+
+pub fn replay(case: &Sx) -> Option<Sx> {
+    let l = case.as_list()?;
+    let text = l.first()?.as_string()?;
+    Some(observe(&text))
 }
 
 pub fn dump(_dir: &str) {}
+
+fn emit(em: &mut Emitter, tag: &str, text: &str) -> Sx {
+    let out = observe(text);
+    em.emit(tag, Sx::L(vec![Sx::s(text)]), out.clone());
+    out
+}
+
+pub fn run(tier: &str, seed: u64, em: &mut Emitter) {
+    let mut r = Rng::new(seed ^ 0xC01);
+    let n_values = if tier == "thorough" { 30_000 } else { 1_200 };
+
+    // Systematic: every number literal alone, in an array, as an object member; escapes of every
+    // listed character, each spelling; nesting depth around the recursion limit.
+    for n in NUMS {
+        emit(em, "systematic-number", n);
+        emit(em, "systematic-number", &format!("[{n}]"));
+        emit(em, "systematic-number", &format!("{{\"a\":{n}}}"));
+        emit(em, "systematic-number", &format!(" {n} "));
+    }
+    for c in CHARS {
+        let cp = *c as u32;
+        let mut spellings = vec![];
+        if cp >= 0x20 && *c != '"' && *c != '\\' {
+            spellings.push(c.to_string());
+        }
+        let mut s = String::new();
+        push_u(&mut Rng::new(1), cp, &mut s);
+        spellings.push(s.clone());
+        spellings.push(s.to_uppercase().replace("\\U", "\\u"));
+        for sp in spellings {
+            emit(em, "systematic-escape", &format!("\"{sp}\""));
+            emit(em, "systematic-escape", &format!("{{\"{sp}\":\"{sp}x\"}}"));
+        }
+    }
+    for short in ["\\\"", "\\\\", "\\/", "\\b", "\\f", "\\n", "\\r", "\\t"] {
+        emit(em, "systematic-escape", &format!("\"{short}\""));
+    }
+    for d in [1usize, 2, 126, 127, 128, 129] {
+        emit(em, "systematic-depth", &format!("{}{}", "[".repeat(d), "]".repeat(d)));
+        emit(em, "systematic-depth", &format!("{}1{}", "{\"a\":".repeat(d), "}".repeat(d)));
+    }
+    // all key permutations for up to 4 keys from a pool whose byte order and UTF-16 order differ
+    let pool = ["\u{ffff}", "\u{10000}", "a", "", "\u{e9}", "B", "\u{1F600}", "\u{7f}"];
+    for n in 1..=4usize {
+        let keys: Vec<&str> = pool.iter().copied().take(n + 2).skip(r.below(3)).take(n).collect();
+        let mut perm: Vec<usize> = (0..keys.len()).collect();
+        let mut texts = vec![];
+        permute(&mut perm, 0, &mut |p| {
+            let body: Vec<String> =
+                p.iter().map(|&i| format!("{}:{}", serde_json::to_string(keys[i]).unwrap(), i)).collect();
+            texts.push(format!("{{{}}}", body.join(",")));
+        });
+        let mut first: Option<Sx> = None;
+        for t in texts {
+            let out = emit(em, "systematic-permutation", &t);
+            match &first {
+                None => first = Some(out),
+                Some(f) => {
+                    if *f != out {
+                        em.emit("order-dependence", Sx::L(vec![Sx::s(&t)]), Sx::L(vec![Sx::N(3), Sx::N(6)]));
+                    }
+                }
+            }
+        }
+    }
+
+    // Random structured: one value, several textual spellings that must give the same outcome.
+    for _ in 0..n_values {
+        let g = gen_g(&mut r, 3);
+        let mut plain = String::new();
+        render(&mut r, &g, 0, 0, false, &mut plain);
+        let base = emit(em, "random-plain", &plain);
+        for variant in 0..3 {
+            let mut t = String::new();
+            render(&mut r, &g, 1 + variant % 2, 1, true, &mut t);
+            let out = emit(em, "random-variant", &t);
+            if out != base {
+                em.emit("spelling-dependence", Sx::L(vec![Sx::s(&t)]), Sx::L(vec![Sx::N(3), Sx::N(7)]));
+            }
+        }
+        // malformed stream: one byte-level edit of the plain text
+        if !plain.is_empty() && r.chance(1, 2) {
+            let bytes = plain.as_bytes();
+            let i = r.below(bytes.len());
+            let mut m = bytes.to_vec();
+            match r.below(3) {
+                0 => {
+                    m.remove(i);
+                }
+                1 => m.insert(i, *r.pick(b"\"\\,:[]{}0-e. u\x01")),
+                _ => m[i] = *r.pick(b"\"\\,:[]{}0-e. u\x01"),
+            }
+            if let Ok(t) = String::from_utf8(m) {
+                emit(em, "malformed", &t);
+            }
+        }
+    }
+    for t in ["\"\\ud800\"", "\"\\udc00\"", "\"\\ud800\\u0041\"", "\"\\ud83d\\ude00\"", "\"\\uD83D\\uDE00\"", "\"\\ud83d\"",
+              "\"\\ud83dx\"", "\"\\u12\"", "\"\\x\"", "\"", "", " ", "nul", "truex", "[1,]", "{\"a\"}", "{\"a\":1,}", "[1 2]", "01",
+              "-", "1.", "1e", "1e+", ".5", "+1", "\"a\x01b\"", "\"\x7f\"", "[]x", "{}{}"] {
+        emit(em, "malformed", t);
+    }
+}
+
+fn permute(p: &mut Vec<usize>, k: usize, f: &mut dyn FnMut(&[usize])) {
+    if k == p.len() {
+        f(p);
+        return;
+    }
+    for i in k..p.len() {
+        p.swap(k, i);
+        permute(p, k + 1, f);
+        p.swap(k, i);
+    }
+}
